@@ -22,6 +22,7 @@ type Engine struct {
 	ppkg        *packages.Package
 	spec        *SpecDB
 	typeConst   map[string]int
+	typeConKind map[string]int
 	anon        map[string]int
 	closureIDs  map[string]*Closure
 	iptrs       map[string]*Ptr
@@ -57,7 +58,7 @@ func LoadPackage(dir string, specFiles []string) (*Engine, error) {
 	}
 	prog, spkgs := ssautil.AllPackages(pkgs, ssa.NaiveForm|ssa.GlobalDebug)
 	prog.Build()
-	e := &Engine{prog: prog, pkg: spkgs[0], ppkg: pkgs[0], typeConst: map[string]int{}, anon: map[string]int{},
+	e := &Engine{prog: prog, pkg: spkgs[0], ppkg: pkgs[0], typeConst: map[string]int{}, typeConKind: map[string]int{}, anon: map[string]int{},
 		closureIDs: map[string]*Closure{}, iptrs: map[string]*Ptr{}, prov: map[string]guardTag{}, initWriters: map[string]bool{},
 		funcs: map[string]*ssa.Function{}, dir: dir, timeoutS: 10}
 	curPkgPath = pkgs[0].PkgPath
@@ -136,7 +137,7 @@ type UnitResult struct {
 
 func (e *Engine) NewUnit(fn *ssa.Function, fs *FuncSpec) *Unit {
 	u := &Unit{eng: e, pkg: e.pkg, fn: fn, fs: fs, decls: NewDecls(), loops: map[*ssa.BasicBlock]*Loop{}, heapSorts: map[string]Sort{},
-		assumed: map[string]bool{}, callOrd: map[string]int{}}
+		assumed: map[string]bool{}, callOrd: map[string]int{}, pdoms: map[*ssa.Function]map[*ssa.BasicBlock]*ssa.BasicBlock{}, noMerge: os.Getenv("EBU_NOMERGE") != ""}
 	if fs != nil {
 		u.props = fs.Props
 	}
@@ -158,7 +159,7 @@ func (e *Engine) VerifyFunc(name string) (*UnitResult, error) {
 	e.iptrs = map[string]*Ptr{}
 	u := e.NewUnit(fn, fs)
 	u.findLoops(fn)
-	st := &State{cells: map[*Cell]Value{}, heaps: map[string]T{}, cnt: map[string]T{}, lastArgs: map[string][]Value{}, ctxDone: map[string]T{}, tokens: map[string]int{}, marks: map[string]*Snapshot{}}
+	st := &State{cells: map[*Cell]Value{}, heaps: map[string]T{}, cnt: map[string]T{}, lastArgs: map[string][]Value{}, lastRes: map[string]Value{}, ctxDone: map[string]T{}, tokens: map[string]int{}, marks: map[string]*Snapshot{}}
 	st.epoch = e.nextEpoch()
 	// ghost axioms from the spec files
 	u.declareSpecPrelude()
@@ -192,6 +193,7 @@ func (e *Engine) VerifyFunc(name string) (*UnitResult, error) {
 		st.frame.named[fv.Name()] = binds[i].(*Ptr).cell
 	}
 	st.entry = st.snapshot()
+	u.entryParams = names
 	env := u.newEnv(st)
 	env.names = names
 	for _, c := range fs.Requires {
@@ -210,6 +212,7 @@ func (e *Engine) VerifyFunc(name string) (*UnitResult, error) {
 	_ = nreq
 
 	outs := u.execFunc(st, fn, args, binds)
+	u.feas.close()
 	for _, o := range outs {
 		u.checkExit(o, fs, names)
 	}
@@ -234,6 +237,7 @@ func (s *State) pcAtEntry(n int) []T {
 }
 
 func (u *Unit) declareSpecPrelude() {
+	u.declCtx()
 	db := u.eng.spec
 	for _, n := range sortedKeys(db.Ghosts) {
 		g := db.Ghosts[n]
@@ -261,8 +265,8 @@ func (u *Unit) checkExit(o Outcome, fs *FuncSpec, params map[string]SV) {
 	// pseudo frame for named lookups at exit (results only via names)
 	if st.frame == nil {
 		st.frame = &Frame{fn: fn, regs: map[ssa.Value]Value{}, named: map[string]*Cell{}}
-		if st.lastNamed != nil {
-			st.frame.named = st.lastNamed
+		if st.lastFrame != nil {
+			st.frame = st.lastFrame
 		}
 	}
 	env := u.newEnv(st)
@@ -352,8 +356,55 @@ func (e *Engine) DischargeAll(res *UnitResult, axioms []T, workers int) {
 		go func(i int, o *Oblig) {
 			defer wg.Done()
 			defer func() { <-sem }()
-			o.Res = Discharge(dir, fmt.Sprintf("%s@%d", o.Name, i), decls, o.Assume, o.Goal, e.timeoutS, e.allSolvers)
+			parts := splitGoal(o.Goal)
+			if len(parts) == 1 {
+				o.Res = Discharge(dir, fmt.Sprintf("%s@%d", o.Name, i), decls, o.Assume, o.Goal, e.timeoutS, e.allSolvers)
+				return
+			}
+			// every conjunct separately: all must be discharged
+			agg := SolverResult{Verdict: "unsat", All: map[string]string{}}
+			for k, g := range parts {
+				r := Discharge(dir, fmt.Sprintf("%s@%d.%d", o.Name, i, k), decls, o.Assume, g, e.timeoutS, e.allSolvers)
+				agg.Seconds += r.Seconds
+				if agg.Solver == "" {
+					agg.Solver = r.Solver
+				}
+				for n, v := range r.All {
+					agg.All[n] = v
+				}
+				if r.Verdict != "unsat" {
+					agg.Verdict = r.Verdict
+					agg.Solver = r.Solver
+					agg.Output = fmt.Sprintf("conjunct %d of %d: %s\n%s", k+1, len(parts), g.S, r.Output)
+					agg.Relaxed = r.Relaxed
+					agg.FailedPart = k
+					break
+				}
+			}
+			o.Res = agg
 		}(i, o)
 	}
 	wg.Wait()
+}
+
+// splitGoal splits a goal into conjuncts: (and a b) and (=> p (and a b)).
+func splitGoal(g T) []T {
+	if as := ctorArgs(g.S, "and"); len(as) > 1 {
+		var out []T
+		for _, a := range as {
+			out = append(out, splitGoal(T{a, SBool})...)
+		}
+		return out
+	}
+	if as := ctorArgs(g.S, "=>"); len(as) == 2 {
+		sub := splitGoal(T{as[1], SBool})
+		if len(sub) > 1 {
+			var out []T
+			for _, x := range sub {
+				out = append(out, T{"(=> " + as[0] + " " + x.S + ")", SBool})
+			}
+			return out
+		}
+	}
+	return []T{g}
 }
